@@ -58,6 +58,7 @@ def check(run):
     _r4(run, prog, eff)
     _r5(run, prog, eff)
     _r6(run, prog)
+    _r7(run, prog)
 
 
 def _field_type(prog, ci, chain):
@@ -450,9 +451,77 @@ def _r3(run, prog, eff):
                     ok = False
                 if ok:
                     run.ok('C01-R3', '%s.%s sentinel %s' % (ci.name, ename, sent), 'set by %s, reset by _change to %s' % (pname, got))
+        _r3bc(run, prog, eff, ci, ch, chclo)
     if n < 8:
         raise AnalysisError('only %d lazily cached model classes found (floor 8)' % n)
     run.floor('C01-R3', 9)
+    run.floor('C01-R3b', 20)
+
+
+def _toplevel(stmts):
+    """Statements executed on every normal run of the block (try bodies and with bodies included)."""
+    for st in stmts:
+        yield st
+        if isinstance(st, ast.Try):
+            yield from _toplevel(st.body)
+        elif isinstance(st, ast.With):
+            yield from _toplevel(st.body)
+
+
+def _r3bc(run, prog, eff, ci, ch, chclo):
+    """R3b: a cached field the populate routine writes only under a condition is reset by _change (otherwise the value of
+    an earlier configuration survives the rebuild).  R3c: the populate routine does not go through a public setter of the
+    model that invalidates the cache or sets a flag under which _change keeps a value."""
+    run.describe('C01-R3b', 'every cached field is rewritten on every rebuild or reset by _change; populate does not use configuration setters')
+    # fields whose value _change consults before resetting something ("user supplied" flags)
+    keep_flags = set()
+    for nd in ast.walk(ch):
+        if isinstance(nd, ast.If):
+            for x in ast.walk(nd.test):
+                c = self_chain(x) if isinstance(x, ast.Attribute) else None
+                if c:
+                    keep_flags.add(c.split('.')[0])
+    for pname, pfn in sorted(ci.methods.items()):
+        if not pname.startswith(POPULATE_PREFIX):
+            continue
+        psum = eff.summary(pfn)
+        always = set()
+        for st in _toplevel(pfn.body):
+            if isinstance(st, (ast.Assign, ast.AnnAssign)):
+                for t in (st.targets if isinstance(st, ast.Assign) else [st.target]):
+                    for tt in ([t] if not isinstance(t, (ast.Tuple, ast.List)) else t.elts):
+                        c = self_chain(tt) if isinstance(tt, ast.Attribute) else None
+                        if c and '.' not in c:
+                            always.add(c)
+        K = '%s|%s|%s|' % (ci.mod.name, ci.name, pname)
+        for f, sts in sorted(psum.writes.items()):
+            cs, setter = prog.find_setter(ci, f) if hasattr(prog, 'find_setter') else (None, None)
+            if setter is not None:
+                run.subject('C01-R3b')
+                sclo = eff.closure(cs, setter)
+                bad = sorted(set(sclo.writes) & keep_flags)
+                if '_change' in sclo.selfcalls:
+                    run.fail('C01-R3b', K + 'setter-invalidates:' + f, ci.mod.relpath, sts[0].lineno,
+                             '%s.%s assigns self.%s through the public setter, which calls _change(): the cache is invalidated while it is being built'
+                             % (ci.name, pname, f))
+                elif bad:
+                    run.fail('C01-R3b', K + 'setter-sets-keep-flag:' + f, ci.mod.relpath, sts[0].lineno,
+                             '%s.%s assigns self.%s through the public setter, which sets %s; _change keeps the value while that flag is set, '
+                             'so data derived from the old sources survives a change of the sources' % (ci.name, pname, f, bad))
+                else:
+                    run.ok('C01-R3b', '%s.%s uses setter %s' % (ci.name, pname, f), 'setter neither invalidates nor sets a keep flag')
+                continue
+            if prog.field(ci, f) is None:
+                continue
+            run.subject('C01-R3b')
+            if f in always:
+                run.ok('C01-R3b', '%s.%s' % (ci.name, f), 'rewritten by every run of %s' % pname, sample=False)
+            elif f in chclo.writes:
+                run.ok('C01-R3b', '%s.%s' % (ci.name, f), 'written conditionally by %s, reset by _change' % pname, sample=False)
+            else:
+                run.fail('C01-R3b', K + 'conditional-not-reset:' + f, ci.mod.relpath, sts[0].lineno,
+                         '%s.%s writes the cached field %s only under a condition and _change does not reset it: after a change of '
+                         'the sources the value built for the previous configuration is kept' % (ci.name, pname, f))
 
 
 # ------------------------------------------------------------------------------------------ R4
@@ -487,9 +556,14 @@ def _r4(run, prog, eff):
         wline = wr[0].lineno
         problems = []
         if is_node_typed or adds:
-            if not any(owner == field and node.lineno > wline for op, owner, cb, node in adds):
+            new_adds = [node for op, owner, cb, node in adds if owner == field and (node.lineno > wline or getattr(node, '_on_new', False))]
+            old_rems = [node for op, owner, cb, node in rems if owner == field and node.lineno < wline and not getattr(node, '_on_new', False)]
+            if not new_adds:
                 problems.append(('no-subscribe', 'does not subscribe to the new %s after assigning it' % name))
-            if not any(owner == field and node.lineno < wline for op, owner, cb, node in rems):
+            elif old_rems and min(a.lineno for a in new_adds) < max(r.lineno for r in old_rems):
+                problems.append(('add-before-remove', 'subscribes to the new %s before unsubscribing from the old one: assigning the '
+                                 'same object again adds nothing and then removes the only subscription' % name))
+            if not old_rems:
                 problems.append(('no-unsubscribe', 'does not unsubscribe from the old %s: a detached object keeps invalidating, and the old one is still referenced' % name))
             if adds and rems and {cb for op, o, cb, n in adds} != {cb for op, o, cb, n in rems}:
                 problems.append(('callback-mismatch', 'adds %s but removes %s' % ({cb for op, o, cb, n in adds}, {cb for op, o, cb, n in rems})))
@@ -621,6 +695,88 @@ def _r6(run, prog):
     run.floor('C01-R6', 10)
 
 
+# ------------------------------------------------------------------------------------------ R7
+_MUTATORS = ('append', 'extend', 'clear', 'pop', 'remove', 'insert', 'sort', 'reverse')
+
+
+def _field_mutations(eff, ci, stmts, field, prog):
+    """Nodes inside `stmts` that change the list self.<field>: direct mutation, assignment, del, or a self-call whose closure does."""
+    out = []
+    for st in stmts:
+        for n in ast.walk(st):
+            if isinstance(n, ast.Call) and isinstance(n.func, ast.Attribute):
+                rc = self_chain(n.func.value) if isinstance(n.func.value, ast.Attribute) else None
+                if rc == field and n.func.attr in _MUTATORS:
+                    out.append(n)
+                elif isinstance(n.func.value, ast.Name) and n.func.value.id == 'self':
+                    m = eff.resolve(ci, n.func.attr)
+                    if m is not None and field in eff.closure(ci, m).writes:
+                        out.append(n)
+            elif isinstance(n, (ast.Assign, ast.AugAssign, ast.Delete)):
+                tg = n.targets if isinstance(n, (ast.Assign, ast.Delete)) else [n.target]
+                for t in tg:
+                    base = t.value if isinstance(t, ast.Subscript) else t
+                    if isinstance(base, ast.Attribute) and self_chain(base) == field:
+                        out.append(n)
+    return out
+
+
+def _leaves_loop_after(loop, node):
+    """After the statement holding `node`, the enclosing block leaves the loop (break/return) before iterating again."""
+    def search(stmts):
+        for i, st in enumerate(stmts):
+            if any(x is node for x in ast.walk(st)):
+                for _, blk in [(f, getattr(st, f)) for f in ('body', 'orelse', 'finalbody') if isinstance(getattr(st, f, None), list)]:
+                    if blk and isinstance(blk[0], ast.stmt) and any(x is node for b in blk for x in ast.walk(b)):
+                        r = search(blk)
+                        if r:
+                            return True
+                        break
+                else:
+                    return any(isinstance(s2, (ast.Break, ast.Return, ast.Raise)) for s2 in stmts[i + 1:i + 2]) or \
+                        any(isinstance(s2, (ast.Break, ast.Return, ast.Raise)) for s2 in stmts[i + 1:])
+                # the inner block did not leave the loop: look at what follows it on this level
+                return any(isinstance(s2, (ast.Break, ast.Return, ast.Raise)) for s2 in stmts[i + 1:])
+        return False
+    return search(loop.body)
+
+
+def _r7(run, prog):
+    run.describe('C01-R7', 'Notifier delivers to every registered live callback: no loop over the callback list changes that list while iterating')
+    eff = Effects(prog)
+    ci = prog.cls('cherab.core.utility.notify.Notifier')
+    field = '_callbacks_refs'
+    nfn = ci.methods.get('notify')
+    if nfn is None:
+        raise AnalysisError('Notifier.notify vanished')
+    loops = 0
+    for mname, fn in sorted(ci.methods.items()):
+        for lp in [n for n in ast.walk(fn) if isinstance(n, ast.For)]:
+            it = lp.iter
+            if not (isinstance(it, ast.Attribute) and self_chain(it) == field):
+                continue        # iterating a copy (list(...), [:]) or something else
+            loops += 1
+            run.subject('C01-R7')
+            bad = [m for m in _field_mutations(eff, ci, lp.body, field, prog) if not _leaves_loop_after(lp, m)]
+            if bad:
+                run.fail('C01-R7', '%s|Notifier|%s|mutates-while-iterating' % (ci.mod.name, mname), ci.mod.relpath, bad[0].lineno,
+                         'Notifier.%s changes self.%s inside the loop over it and keeps iterating: the entry after a removed one is '
+                         'skipped, so a registered live callback is not called (or not found)' % (mname, field))
+            else:
+                run.ok('C01-R7', 'Notifier.%s loop over %s' % (mname, field), 'no mutation while iterating (or the loop is left right after it)')
+    # notify() calls what it dereferences
+    run.subject('C01-R7')
+    called = {c.func.id for c in ast.walk(nfn) if isinstance(c, ast.Call) and isinstance(c.func, ast.Name)}
+    local = {t.id for n in ast.walk(nfn) if isinstance(n, ast.Assign) for t in n.targets if isinstance(t, ast.Name)}
+    if called & local:
+        run.ok('C01-R7', 'Notifier.notify invokes the dereferenced callbacks', sorted(called & local))
+    else:
+        run.undecided('C01-R7', 'Notifier.notify', 'no call of a locally dereferenced callback recognised')
+    if loops < 3:
+        raise AnalysisError('Notifier: only %d loops over the callback list found' % loops)
+    run.floor('C01-R7', 4)
+
+
 _BN = 'cherab/core/beam/node.pyx'
 _PN = 'cherab/core/plasma/node.pyx'
 _PM = 'cherab/core/plasma/model.pyx'
@@ -628,6 +784,9 @@ _IE = 'cherab/core/model/plasma/impact_excitation.pyx'
 _SR = 'cherab/core/model/attenuator/singleray.pyx'
 _LN = 'cherab/core/laser/node.pyx'
 MUTANTS = [
+    dict(name='laser-subscribes-before-unsubscribing', file='cherab/core/laser/node.pyx', edits=[
+        dict(file='cherab/core/laser/node.pyx', find="        #unregister from old plasma notifier\n", replace="        value.notifier.add(self._plasma_changed)\n"),
+        dict(file='cherab/core/laser/node.pyx', find="        self._plasma.notifier.add(self._plasma_changed)\n", replace="")], expect='C01-R4'),
     dict(name='beam-energy-no-notify', file=_BN, find="        self._energy = value\n        self.notifier.notify()", replace="        self._energy = value", expect='C01-R1'),
     dict(name='model-atomic-data-no-change', file=_PM, find="        self._atomic_data = value\n\n        # inform model source data has changed\n        self._change()", replace="        self._atomic_data = value", expect='C01-R4'),
     dict(name='change-keeps-sentinel', file=_IE, find="        self._target_species = None\n        self._wavelength = 0.0", replace="        self._wavelength = 0.0", expect='C01-R3'),
@@ -652,6 +811,9 @@ MUTANTS = [
 ]
 MUTANTS = [m for m in MUTANTS if m.get('expect') is not None]
 TWINS = [
+    dict(name='laser-subscribes-through-the-parameter', file='cherab/core/laser/node.pyx',
+         find="        self._plasma = value\n        self._plasma.notifier.add(self._plasma_changed)",
+         replace="        value.notifier.add(self._plasma_changed)\n        self._plasma = value"),
     dict(name='change-keeps-rates', file=_IE, find="        self._rates = None\n        self._lineshape = None", replace="        self._lineshape = None"),
     dict(name='beam-temperature-no-notify', file=_BN, find="        self._temperature = value\n        self.notifier.notify()", replace="        self._temperature = value"),
 ]
